@@ -28,6 +28,21 @@ def classify(q, e, kind):
 
 def body(ch):
     part, cul, q, ref = sc.build(ch)
+    if part == 'two-threads':
+        (rec, mt), qs, plan, got, alone = sc.two_threads(ch)
+        for tid, q in enumerate(qs):
+            ents = got[tid]
+            if isinstance(ents, str):
+                ch.fail('two-threads|%s|exception' % mt, {'model': mt, 'queries': qs, 'plan': plan, 'error': ents})
+                return
+            for e in ents:
+                err = sc.span_error(q, e)
+                if err:
+                    ch.fail('two-threads|%s|%s' % (mt, err), {'model': mt, 'queries': qs, 'plan': plan, 'thread': tid,
+                                                             'entity': (e.start, e.end, e.text), 'slice': q[max(0, e.start):e.end + 1]})
+                    return
+        ch.ok(case=(mt, tuple(map(tuple, plan))), outcome='two-threads|%s' % mt, evals=2)
+        return
     if part == 'normaliser':
         # the normalisation itself, exhaustively over every Unicode code point: it must be length-preserving, and every code
         # point it rewrites must be one the independent normaliser of this driver knows (otherwise texts cannot be compared)
